@@ -32,6 +32,8 @@ RULE = (
 ASSUMPTIONS = [
     "a relative directory is interpreted when set_store is called; another process is given the same absolute location",
     "usable = the process can create and write the directories",
+    "the implicit store of a program that never calls set_store and set_store('local') without directories are the same 'default store' "
+    "(dds.set_store docstring); its literal location is not asserted",
 ]
 
 FORMS = ["abs", "rel", "rel_dotdot", "trailing", "nested", "symlink", "symlink_deep", "preexisting", "otherfs"]
@@ -304,13 +306,15 @@ print(json.dumps(out))
 
 
 def check_defaults(ev, scratch):
-    """Directories left to their defaults: the implicit store of a program that never calls set_store and a store configured
-    with set_store('local') (any option left out) are the same store - what one keeps, the other loads without recomputing."""
+    """Directories left to their defaults: the implicit store of a program that never calls set_store and the store configured
+    with set_store('local') without directories are both "the default store" of the documentation - what one program keeps, the
+    other loads without recomputing."""
     import json
     import subprocess
     import sys
 
-    cfgs = [None, {}, {"cache_objects": True}, {"cache_objects": 2}, "data_only", "internal_only"]
+    # (the literal default locations are not asserted: "the exact paths of the default store may change")
+    cfgs = [None, {}, {"cache_objects": True}, {"cache_objects": 2}]
     for first in cfgs:
         for second in cfgs:
             if first == second and first is not None:
@@ -328,10 +332,6 @@ def check_defaults(ev, scratch):
             env.update({"TMPDIR": tmpd, "C16_MARK": mark, "PYTHONPATH": os.pathsep.join([common.REPO, common.VERIF]), "PYTHONDONTWRITEBYTECODE": "1"})
             outs = []
             for cfg in (first, second):
-                if cfg == "data_only":
-                    cfg = {"data_dir": os.path.join(tmpd, "dds", "data")}
-                elif cfg == "internal_only":
-                    cfg = {"internal_dir": os.path.join(tmpd, "dds", "store")}
                 p = subprocess.run([sys.executable, "-W", "ignore", "-c", DEFAULTS_MAIN.format(root=root, cfg=cfg)], env=env, cwd=base,
                                    stdout=subprocess.PIPE, stderr=subprocess.PIPE)
                 if p.returncode != 0:
